@@ -171,6 +171,34 @@ func (c *Ctx) lockInstance(inst LockInstance) []core.Ob {
 		return []core.Ob{{Rule: "R-LOCK", Key: inst.Type + "#methods", Status: core.Violated, Armed: true, Want: "confirmed guarded type has methods", Got: "type not found"}}
 	}
 	accessCount := map[string]int{}
+	// methods that take the lock themselves and read guarded state: calling one
+	// is a guarded read in a critical section of its own
+	selfLocking := map[*ssa.Function]bool{}
+	for _, fn := range methods {
+		if len(fn.Params) == 0 {
+			continue
+		}
+		locks, reads := false, false
+		for _, b := range fn.Blocks {
+			for _, in := range b.Instrs {
+				switch x := in.(type) {
+				case ssa.CallInstruction:
+					if op, ok := classifyLockOp(x.Common(), fn.Params[0]); ok && op.kind == "lock" && op.id == inst.Lock {
+						locks = true
+					}
+				case *ssa.UnOp:
+					if x.Op == token.MUL {
+						if path, ok := fieldPathFromRecv(x.X, fn.Params[0]); ok && contains(inst.Fields, path) {
+							reads = true
+						}
+					}
+				}
+			}
+		}
+		if locks && reads {
+			selfLocking[fn] = true
+		}
+	}
 	for _, fn := range methods {
 		if len(fn.Params) == 0 || len(fn.Blocks) == 0 {
 			continue
@@ -254,6 +282,18 @@ func (c *Ctx) lockInstance(inst LockInstance) []core.Ob {
 									obs = append(obs, o)
 								}
 							}
+							continue
+						}
+						// call of a sibling method that locks internally and reads guarded state
+						if sc := x.Common().StaticCallee(); sc != nil && selfLocking[core.Origin(sc)] && len(x.Common().Args) > 0 && x.Common().Args[0] == ssa.Value(recv) {
+							if report && st.held {
+								ord["self-deadlock"]++
+								o := mk(fmt.Sprintf("%s.self-deadlock#%d", fname, ord["self-deadlock"]), "a method that takes "+inst.Lock+" is not called with the lock already held", x.Pos(), fn)
+								o.Status, o.Got = core.Violated, sc.Name()+" locks the non-reentrant mutex again"
+								obs = append(obs, o)
+							}
+							st.readSeen = true
+							st.unlAfter = true
 							continue
 						}
 						// call of a method on a guarded object: p.queue.PushBack(v)
